@@ -238,11 +238,13 @@ def run(rep, tier):
     if not asg:
         raise AnalysisBroken("basic_function::assign(F&&) not instantiated")
     for fn in asg:
-        SAME = "f_vptr == this->vptr"
         leaves_a = set(cond_atoms(blk.cond)[0] for blk in fn.blocks.values() if blk.cond is not None)
-        if SAME not in leaves_a and "this->vptr == f_vptr" not in leaves_a:
+        # the 'same target type' test compares the new callable's vtable (a local) with this->vptr; names are free
+        same_c = [a for a in leaves_a if re.match(r"^(\w+ == this->vptr|this->vptr == \w+)$", a)]
+        if len(same_c) != 1:
             raise AnalysisBroken("basic_function::assign: same-type test not found (%s)" % sorted(leaves_a))
-        same_atom = SAME if SAME in leaves_a else "this->vptr == f_vptr"
+        same_atom = same_c[0]
+        empty_atoms = [a for a in leaves_a if a.startswith("is_empty_function(")]
         frees = lambda e: e.get("k") == "call" and callee_short(e) in ("destroy", "deallocate", "reset") and P(e.get("recv")) in ("this", "this->vptr", "*this->vptr")
         dtor = lambda e: e.get("k") == "call" and callee_short(e).startswith("~")
         alloc = lambda e: e.get("k") == "call" and callee_short(e) == "allocate"
@@ -250,7 +252,7 @@ def run(rep, tier):
         probs = []
         npaths = 0
         for same in (True, False):
-            for evs, end in eval_walk(fn, fn.entry, atom_env={same_atom: same, "is_empty_function(f)": False}):
+            for evs, end in eval_walk(fn, fn.entry, atom_env=dict([(same_atom, same)] + [(a, False) for a in empty_atoms])):
                 seq = [e for _, _, e in evs]
                 nw = [k_ for k_, e in enumerate(seq) if isnew(e)]
                 if not nw:
@@ -276,13 +278,14 @@ def run(rep, tier):
     # swap: after the buffers were exchanged each wrapper's object pointer is re-pointed into its *own* buffer,
     # independently of the other one (both may hold inline callables) - truth table over the two tests
     sw = fb("swap")[0]
-    A = "&f.storage == this->object"
-    B = "&this->storage == f.object"
+    OP = sw.params[0]["name"] if sw.params else "f"          # the other wrapper (the parameter's name is free)
+    A = "&%s.storage == this->object" % OP
+    B = "&this->storage == %s.object" % OP
     leaves_sw = set(cond_atoms(blk.cond)[0] for blk in sw.blocks.values() if blk.cond is not None)
     if A not in leaves_sw or B not in leaves_sw:
         raise AnalysisBroken("function_base::swap: pointer fix-up tests not found (conditions: %s)" % sorted(leaves_sw))
     fixa = lambda e: e.get("k") == "write" and P(e["lhs"]) == "this->object" and T(strip(e.get("rhs"))) == "&this->storage"
-    fixb = lambda e: e.get("k") == "write" and P(e["lhs"]) == "f.object" and T(strip(e.get("rhs"))) == "&f.storage"
+    fixb = lambda e: e.get("k") == "write" and P(e["lhs"]) == OP + ".object" and T(strip(e.get("rhs"))) == "&%s.storage" % OP
     mism = []
     for av in (True, False):
         for bv in (True, False):
